@@ -119,6 +119,36 @@ func checkPad(sum *core.Summary, c idxCase, name string, pad func([]complex128) 
 	o := core.Call(func() { p = pad(x) })
 	sum.Cases++
 	sig := func(k string) string { return "dsp:Pad" + name + ":" + k }
+	// the same frame as the prefix of a longer buffer whose spare capacity holds other data: the
+	// padding must still be zeros (a frame cut from a stream)
+	if L > 0 && wantPad > L {
+		buf := make([]complex128, 2*wantPad+3)
+		for i := range buf {
+			buf[i] = complex(1e3+float64(i), -7)
+		}
+		copy(buf, seqC(L))
+		var q []complex128
+		oq := core.Call(func() { q = pad(buf[:L]) })
+		sum.Cases++
+		switch {
+		case oq.Panicked:
+			sum.Fail(sig("panic"), fmt.Sprintf("len %d (prefix of a longer buffer): %s", L, oq.Text), c)
+		case len(q) != wantPad:
+			sum.Fail(sig("length"), fmt.Sprintf("len %d (prefix of a longer buffer): padded to %d, spec %d", L, len(q), wantPad), c)
+		default:
+			ref := seqC(L)
+			for i := range q {
+				var w complex128
+				if i < L {
+					w = ref[i]
+				}
+				if q[i] != w {
+					sum.Fail(sig("content"), fmt.Sprintf("len %d (prefix of a longer buffer): padded[%d]=%v, want %v", L, i, q[i], w), c)
+					break
+				}
+			}
+		}
+	}
 	switch {
 	case o.Panicked:
 		sum.Fail(sig("panic"), fmt.Sprintf("len %d: %s", L, o.Text), c)
